@@ -21,6 +21,8 @@ try:
     pkgs = sorted({"./" + os.path.dirname(f) + "/..." for f in files})
     demos = [f for f in os.listdir(sdir) if f not in ("patch.diff", "meta.json")]
     demo_cmd = re.sub(r"\s{2,}\(.*$", "", meta.get("demo_cmd", ""))   # some agents append a remark in parentheses
+    demo_cmd = re.sub(r"\s+#.*$", "", demo_cmd)                          # ... or a shell comment
+    demo_cmd = re.sub(r"^cd /tmp/seed-C\d+\s*&&\s*", "", demo_cmd)       # ... or start by entering their own worktree
     def run_demo():
         # the demo command is written relative to the worktree root with the seed under seeds/<k>/
         k = os.path.basename(os.path.normpath(sdir))
@@ -47,6 +49,9 @@ finally:
     subprocess.run("git worktree remove --force %s" % wt, shell=True, cwd="/repo")
 # run the check against /repo with the patch
 rc, out = sh("git status --porcelain", "/repo"); assert out.strip() == "", "/repo not clean: " + out
+# the evidence file describes clean-tree runs: keep it across this run on a patched tree
+evf = os.path.join(V, "evidence", pid + ".json")
+ev_saved = open(evf).read() if os.path.exists(evf) else None
 try:
     rc, out = sh("git apply %s" % patch, "/repo"); assert rc == 0, out
     rc, out = sh("./check %s quick" % pid, V, timeout=3000)
@@ -58,6 +63,8 @@ try:
         o = json.load(open(rp[0])); res["first_replay"] = dict(case=o["case"][:600], spec=o["spec"], broken=o["broken"])
 finally:
     sh("git checkout -- .", "/repo")
+    sh("git clean -fdq", "/repo")     # a patch may add files
+    if ev_saved is not None: open(evf, "w").write(ev_saved)
 dst = os.path.join(V, "seeded", name)
 os.makedirs(dst, exist_ok=True)
 shutil.copy(patch, os.path.join(dst, "patch.diff"))
